@@ -188,6 +188,7 @@ func c01Exec(raw json.RawMessage, res *RunResult) {
 			// beyond any work the budget could justify (bounded work proper is C07's clause)
 			m.Budget = 64*sc.Cfg.OpLimit + 100_000
 		}
+		m.HugeLimit = 8 << 20
 		m.DepthCap = 0
 		if sc.Cfg.OpLimit == 0 {
 			m.DepthCap = 40 // without a budget, unbounded recursion is the script's business: cancel it
@@ -214,6 +215,18 @@ func c01Exec(raw json.RawMessage, res *RunResult) {
 			parsedOK = o.Panic == "" && (o.Err == "" || vm.Error == nil || !strings.Contains(o.Err, "Syntax") && !strings.Contains(o.Err, "语法") && c.Kind == "run" && vm.Ret != nil)
 			if c.Kind == "parse" {
 				parsedOK = o.Panic == "" && o.Err == ""
+			}
+		}
+		if m.Huge != "" {
+			res.Probe("huge_string_cancelled")
+			if sc.Cfg.OpLimit > 0 {
+				res.Violate("resource:string-over-8MiB-within-budget@"+m.Huge, "command %d built a string of more than 8 MiB after %d ticks although OpCountLimit=%d is configured: memory is not bounded by the budget\n  src=%q", i, m.Ticks, sc.Cfg.OpLimit, trunc(c.Src, 300))
+			}
+		}
+		if o.Extra == "huge-result" {
+			res.Probe("huge_result_not_printed")
+			if sc.Cfg.OpLimit > 0 {
+				res.Violate("resource:result-print-size-exponential", "command %d returned, within OpCountLimit=%d, a value whose printed form has %d nodes (sub-structures shared by reference): ToString/ToRepr/ToJSON/GetDetailText on it exhaust time and memory\n  src=%q", i, sc.Cfg.OpLimit, ExpandedSize(vm.Ret), trunc(c.Src, 300))
 			}
 		}
 		if o.Panic != "" {
@@ -324,7 +337,7 @@ func c01Shrink(raw json.RawMessage) []json.RawMessage {
 func init() {
 	Register(&Check{
 		ID: "C01", Level: "exploration",
-		QuickRuns: 20000, ThoroughRuns: 600000,
+		QuickRuns: 24000, ThoroughRuns: 1200000,
 		Gen: c01Gen, Exec: c01Exec, Shrink: c01Shrink,
 		Rule: "one case = one simulated history on a single long-lived VM: 3-9 commands (Run, Parse+RunAfterParsed x2, RunExpr, stale RunAfterParsed) over generated, ill-typed, broken-tail, byte-noise and adversarial programs, under a swarm configuration (dice flags, DisableStmts/NDice/Bitwise, IgnoreDiv0, min/max, DefaultDiceSideExpr, op/parse budgets, seeded/unseeded), with host-callback faults (handler error/nil/re-entrant RunExpr), simulator cancellation at a chosen tick, and an observation burst after every command. distinct = distinct command-text sequences; non-trivial = at least one evaluation dispatched more than 3 instructions successfully",
 		Real: []string{"dicescript parser, compiler, VM, values, ValueMap, serialisation, roll functions (whole package, build tag verif)"},
